@@ -48,10 +48,14 @@ def run(ctx):
     # contains a record that some other configuration's rules block.
     nt = {c["i"] for c in cfgs if nontrivial(c)}
     sel = cfgs            # the replay costs about as much as generating: both tiers replay every vector
-    confirmed, st = cm.replay_with_confirmation(ctx, TEST_REPLAY, cm.FILES02, hdr, sel, "c02")
+    rng = random.Random(ctx.seed)
+    # histories of ONE live server: 4 configurations + the first one again, see c01.py
+    walks = cm.make_walks(sel, rng, "w02")
+    confirmed, st = cm.replay_with_confirmation(ctx, TEST_REPLAY, cm.FILES02, hdr, walks, "c02")
     for b in confirmed[:MAX_REPORTS]:
-        ctx.disagreement(classify(b), b, "C02: %s with upstream answer %s -- observed %s, spec admits %s (lists %s)" % (
-            b["concrete"], json.dumps(b["ans"]), json.dumps(b["got"]), json.dumps(b["want"]), json.dumps(b["lists"])))
+        ctx.disagreement(classify(b), b, "C02: %s%s with upstream answer %s -- observed %s, spec admits %s (rule lists over the server's life: %s)" % (
+            b["concrete"], " (asked before)" if b.get("rep") else "", json.dumps(b["ans"]), json.dumps(b["got"]),
+            json.dumps(b["want"]), json.dumps(b["history"])))
 
     # Direction B
     n_cfg = 120 if ctx.quick else 600
@@ -80,8 +84,11 @@ def run(ctx):
 
     replaced = sum(1 for c in sel for e in c["tab"] if entry_kind(e) == "R")
     delivered = sum(1 for c in sel for e in c["tab"] if entry_kind(e) == "up")
-    if replaced == 0 or delivered == 0 or trace_r == 0:
-        raise vlib.Inconclusive("vacuous: replaced=%d delivered=%d trace_replaced=%d" % (replaced, delivered, trace_r))
+    cached = sum(1 for c in sel if c["cfg"]["cache"])
+    foreign = sum(1 for c in sel for e in c["tab"] if entry_kind(e) == "R" and any(e["own"]))
+    if replaced == 0 or delivered == 0 or trace_r == 0 or cached == 0 or foreign == 0 or st["reconfigurations"] == 0:
+        raise vlib.Inconclusive("vacuous: replaced=%d delivered=%d trace_replaced=%d cached=%d foreign_owner_replaced=%d reconf=%d" % (
+            replaced, delivered, trace_r, cached, foreign, st["reconfigurations"]))
     mid = sel[len(sel) // 2]
     samples = [{"cfg": mid["cfg"], "entries": [dict(e, answer=[hdr["rrs"][x - 1] for x in hdr["answers"][e["k"] - 1]])
                                                for e in mid["tab"][20:23]]}]
@@ -89,7 +96,10 @@ def run(ctx):
     samples.append({"trace_line": next(r for r in trows if r["ev"] == "q" and r["obs"]["why"] == "R")})
     cov = {
         "traces_validated_against_impl": st["configs"] + trace_q,
-        "configurations_generated": len(cfgs), "configurations_replayed": st["configs"],
+        "configurations_generated": len(cfgs), "configurations_replayed": len(sel),
+        "live_servers": st["walks"], "configuration_visits": st["configs"],
+        "reconfigurations_on_live_servers": st["reconfigurations"], "configurations_with_cache": cached,
+        "entries_replaced_with_foreign_owner": foreign,
         "evaluations": st["evals"] + trace_q,
         "answer_sections_in_universe": len(hdr["answers"]),
         "distinct_nontrivial": len(nt),
@@ -111,16 +121,6 @@ def run(ctx):
 
 def replay(ctx, path):
     rec = json.load(open(path))["record"]
-    if "vector" in rec:
-        names = {json.dumps(r, sort_keys=True): i + 1 for i, r in enumerate(rec["ans"])}
-        rrs = list(rec["ans"])
-        hdr = {"kind": "hdr02", "rrs": rrs, "answers": [list(range(1, len(rrs) + 1))],
-               "qname": rec["concrete"].split(" ")[0].rstrip(".").lower().split(".")}
-        line = {"kind": "c02", "i": rec.get("i", 0), "cfg": rec["vector"],
-                "tab": [{"k": 1, "qt": rec["qtype"], "out": rec["want"]}]}
-        confirmed, st = cm.replay_with_confirmation(ctx, TEST_REPLAY, cm.FILES02, hdr, [line], "c02r")
-        print(json.dumps({"expected": rec["want"],
-                          "observed": [b["got"] for b in confirmed] or "admissible",
-                          "concrete": [b["concrete"] for b in confirmed]}, indent=1))
-        return 1 if confirmed else 0
+    if "walk" in rec:      # direction A
+        return cm.replay_stored_walk(ctx, TEST_REPLAY, cm.FILES02, rec, "c02r")
     return cm.replay_trace_record(ctx, TEST_TRACE, cm.FILES02, rec, "c02r")
